@@ -491,6 +491,19 @@ class Arr:
 
     def fix_bad(self):
         """fix -e, then forget the damage it repaired (verified by comparing bytes with the originals)"""
+        # keep every stripe recoverable: at most npar damaged blocks (data + parity) per stripe
+        per = {}
+        for (d, pos) in self.silent:
+            per.setdefault(pos, []).append(('d', d))
+        for (l, pos) in self.pcorrupt:
+            per.setdefault(pos, []).append(('p', l))
+        for pos, items in per.items():
+            if len(items) > self.npar:
+                for kind, x in items:
+                    if kind == 'd':
+                        self.restore_data(x, pos)
+                    else:
+                        self.restore_parity(x, pos)
         self.tick()
         rc, out, lt = self.run(['-e', 'fix'])
         self.history.append({'op': 'fix -e', 'T': self.T})
@@ -859,10 +872,11 @@ def main(tier, replay=None):
                 scenario_walk(a, steps, a.viol)
             else:
                 scenario_ties(a, steps, a.viol)
-        except HarnessError as e:
+        except Exception as e:
+            import traceback
             with lock:
-                chk.notes.append('harness error in %s: %s' % (name, str(e)[:300]))
-                stats['harness_error'] = str(e)[:300]
+                chk.notes.append('harness error in %s: %s' % (name, (str(e) + ' | ' + traceback.format_exc()[-400:])[:700]))
+                stats['harness_error'] = '%s: %s' % (type(e).__name__, str(e)[:300])
         finally:
             m.close()
             shutil.rmtree(a.root, ignore_errors=True)
